@@ -548,3 +548,21 @@ Fixpoint oracle_enc_history (rs : rstate) (blocks : list oracle_enc_block) : N :
 (* case = (initial maximum of both sides = min(max_size given to Encoder::new, 4096), history) *)
 Definition oracle_hpack_enc (c : N * list oracle_enc_block) : N :=
   oracle_enc_history (rstate_init (fst c)) (snd c).
+
+(* the same, read off a correspondence case: the history up to the first block on which
+   `encode` panicked (nothing was handed to the peer for that block) *)
+Fixpoint oracle_blocks_of (blocks : list block_rec) : list oracle_enc_block :=
+  match blocks with
+  | (ups, fl, OOut out size max _) :: more =>
+    (ups, submitted fl, out, size, max) :: oracle_blocks_of more
+  | _ => []
+  end.
+
+Definition oracle_of_case (c : N * N * list block_rec) : N :=
+  let '(max_size, _, blocks) := c in
+  oracle_hpack_enc (N.min max_size DEFAULT_MAX_ALLOWED_SIZE, oracle_blocks_of blocks).
+
+(* both at once (one pass over the recorded cases):
+   0 fine, 1 model and implementation differ, 2 the oracle objects, 3 both *)
+Definition check_and_oracle (c : N * N * list block_rec) : N :=
+  (if check_hpack_enc c then 0 else 1) + (if oracle_of_case c =? 0 then 0 else 2).
